@@ -32,6 +32,9 @@ type CConfig struct {
 	// HookCalls: the OnCancel hook tells the peer (a Notify with a fresh context,
 	// the use its documentation names) and the OnStop hook asks IsStopped.
 	HookCalls bool `json:"hook_calls,omitempty"`
+	// HookClose: the first OnCancel hook closes the client (a caller that gives
+	// up on the connection when a request is cancelled).
+	HookClose bool `json:"hook_close,omitempty"`
 }
 
 // ReplyItem is one member of a record the scripted peer sends.
@@ -543,6 +546,7 @@ func RunClient(t *testing.T, sc CScenario) (h *CHistory) {
 				w.log(CEvent{Kind: "peer-recv", Data: string(b)})
 			}
 		}()
+		var hookClosed atomic.Bool
 		opts := &jrpc2.ClientOptions{
 			OnNotify: func(req *jrpc2.Request) {
 				w.log(CEvent{Kind: "onnotify", Data: req.ParamString()})
@@ -589,6 +593,12 @@ func RunClient(t *testing.T, sc CScenario) (h *CHistory) {
 			},
 			OnCancel: func(cli *jrpc2.Client, rsp *jrpc2.Response) {
 				w.log(CEvent{Kind: "oncancel", ID: rsp.ID()})
+				if sc.Cfg.HookClose && hookClosed.CompareAndSwap(false, true) {
+					w.log(CEvent{Kind: "close"})
+					err := cli.Close()
+					w.log(CEvent{Kind: "closeret", Err: errStr(err)})
+					return
+				}
 				if sc.Cfg.HookCalls {
 					nerr := cli.Notify(context.Background(), "hook.cancelled", []string{rsp.ID()})
 					w.log(CEvent{Kind: "hook-notify", ID: rsp.ID(), Err: errStr(nerr)})
